@@ -421,6 +421,14 @@ impl Strategy {
 		// level 0 is never drained, and writers stalled on the level-0 limit wait
 		// for ever.
 		let last = manifest.last_level_index();
+		// Level 0 goes first whenever it is due. Writers stall on the number of
+		// level-0 tables and are only woken when a compaction round finishes; the
+		// background task runs one round per wake-up, so a round spent on a deeper
+		// level with a higher score would leave them waiting with nobody left to
+		// schedule the next round.
+		if let Some((level, _)) = scores.iter().copied().find(|(level, _)| *level == 0) {
+			return Some(level);
+		}
 		let (level, _score) =
 			scores.iter().copied().find(|(level, _)| *level != last).unwrap_or(scores[0]);
 		Some(level)
